@@ -70,6 +70,33 @@ Proof.
 Qed.
 Print Assumptions C14_nactive_rule.
 
+(* Corner: a refused add.  In tree mode a particle whose coordinates are identical to those of a particle already
+   in the tree is refused (RuntimeError in Python); since 950a4b2 the simulation is then unchanged: same
+   particles, N, N_active, N_var (only the storage may have grown and slot N been written), nothing out of bounds.
+   Outside tree mode coincident particles are accepted. *)
+Theorem C14_refused_add_unchanged : forall s p s' r, wf s -> step s (Add p) = (s', r) -> r = RFail ->
+  wf s' /\ oob s' = oob s /\ aps (abs s') = aps (abs s) /\ aNact (abs s') = aNact (abs s) /\
+  aNvar (abs s') = aNvar (abs s) /\ acfg (abs s) = true.
+Proof.
+  intros s p s' r Hwf H Hr. cbn [step] in H. unfold add_op in H.
+  destruct (add_refused s p) eqn:E; inversion H; subst; [|discriminate].
+  destruct (add_slot_spec s p Hwf) as (A1 & A2 & A3). rewrite A3. cbn [aps aNact aNvar].
+  repeat split; auto; try apply A1. unfold add_refused in E. cbn. destruct (tcfg s); auto.
+Qed.
+Print Assumptions C14_refused_add_unchanged.
+
+(* Corner: N_active negative (-1 = unset, or any other negative value a user may have written): no removal
+   path changes it (C14_nactive_consistent assumes user writes in {-1} U [0,N]; this is what happens otherwise
+   for negative values; values above N are clamped by the unsorted path only, see C14_nactive_rule) *)
+Theorem C14_nactive_negative_inert : forall a i keep, (aNact a < 0)%Z -> aNact (aremove a i keep) = aNact a.
+Proof.
+  intros a i keep H. rewrite C14_nactive_rule.
+  destruct ((length (aps a) =? 1) && negb (atree a)); [destruct (Z.of_nat i <? aNact a)%Z eqn:E; lia|].
+  destruct keep; [destruct (Z.of_nat i <? aNact a)%Z eqn:E; lia|].
+  destruct (atree a); auto. destruct (Z.of_nat (length (aps a) - 1) <? aNact a)%Z eqn:E; lia.
+Qed.
+Print Assumptions C14_nactive_negative_inert.
+
 (* ---- Python container (rebound/particles.py) as a thin layer over the model: coq/C14/PyLayer.v *)
 (* reads (int / negative / c_uint32 / str keys), `del sim.particles[k]` (a no-op in the source), slices
    and len never change the simulation and touch nothing outside the storage *)
@@ -95,6 +122,20 @@ Theorem C14_py_setitem : forall s k p s' r, wf s -> py_step s (PySet k p) = (s',
    \/ ((r = PRAttributeError \/ r = PRNotFound) /\ abs s' = abs s)).
 Proof. exact py_setitem. Qed.
 Print Assumptions C14_py_setitem.
+
+(* Corner: Python ints beyond 32 bits (ctypes keeps the low 32 bits of an int argument).  Through
+   Simulation.remove an index far out of range can remove a live particle: refuted with index 2^32 on a
+   one-particle simulation (open finding py_remove_index_truncated) ... *)
+Theorem C14_py_remove_big_index_refuted : exists s z s' r,
+  wf s /\ (Z.of_nat (sN s) <= z)%Z /\ py_step s (PyRemove (Some z) None true) = (s', r) /\ r = PRNone /\ sN s' < sN s.
+Proof. exact py_remove_big_index_refuted. Qed.
+Print Assumptions C14_py_remove_big_index_refuted.
+(* ... and rejected (RuntimeError, nothing changed) for every out-of-range index that fits a C int *)
+Theorem C14_py_remove_index_rejected_int32 : forall s z keep s' r, wf s ->
+  (-2147483648 <= z < 2147483648)%Z -> (z < 0 \/ Z.of_nat (sN s) <= z)%Z ->
+  py_step s (PyRemove (Some z) None keep) = (s', r) -> r = PRRuntimeError /\ s' = s.
+Proof. exact py_remove_index_rejected_int32. Qed.
+Print Assumptions C14_py_remove_index_rejected_int32.
 
 (* ---- MERCURIUS / TRACE bookkeeping of reb_simulation_remove_particle and reb_simulation_add:
    coq/C14/Hybrid.v (model), coq/C14/HybridProofs.v *)
@@ -196,7 +237,7 @@ Print Assumptions C14_trace_full_add_map_untouched.
    the size of particles_backup / particles_backup_kepler (reallocated together), current_Ks has
    N_allocated^2 entries.  [hyb_ok]: encounter_map is a valid (strictly increasing) injection of its
    encounter_N live entries into [0,N), N <= N_allocated, N_allocated^2 <= |current_Ks|. *)
-Theorem C14_hybrid_add_ok : forall s h p d s' h', active h = true -> hyb_ok s h -> hadd s h p d = (s', h') ->
+Theorem C14_hybrid_add_ok : forall s h p d s' h', active h = true -> hyb_ok s h -> add_refused s p = false -> hadd s h p d = (s', h') ->
   hyb_ok s' h' /\ hoob h' = hoob h /\ sN s' = S (sN s) /\ eN h' = S (eN h).
 Proof. exact hadd_ok. Qed.
 Print Assumptions C14_hybrid_add_ok.
@@ -227,7 +268,9 @@ Print Assumptions C14_callback_remove_all.
    bookkeeping for new particles): the hybrid arrays are untouched, N is unchanged, the invariant of the encounter
    step is preserved, the particle array holds the same particles (re-inserted one last), nothing outside the
    storage is touched *)
-Theorem C14_tree_reinsert_ok : forall s h i s' h', wf s -> i < sN s -> tree_reinsert s h i = (s', h') ->
+Theorem C14_tree_reinsert_ok : forall s h i s' h', wf s -> i < sN s ->
+  add_refused (reinsert_mid s i) (nth i (mem s) pzero) = false ->      (* it does not coincide with another particle *)
+  tree_reinsert s h i = (s', h') ->
   h' = h /\ sN s' = sN s /\ wf s' /\ oob s' = oob s /\
   aps (abs s') = remove_swap i (aps (abs s)) ++ [nth i (aps (abs s)) pzero] /\
   (hyb_ok s h -> hyb_ok s' h').
